@@ -220,6 +220,40 @@ def _counting_loops(fn):
                 break
 
 
+def _count_loops(fn):
+    """`v = A` directly followed by `while True: v += 1; BODY` (A an integer constant, no other store to v in BODY) is
+    `for v in itertools.count(start=A+1): BODY` -- a `continue` goes through the increment in both spellings and v keeps its value
+    after a break.  Brought to the for form (the module must import itertools)."""
+    changed = True
+    while changed:
+        changed = False
+        for owner, fld, lst in list(_bodies(fn)):
+            for i in range(len(lst) - 1):
+                a, w = lst[i], lst[i + 1]
+                if not (isinstance(a, ast.Assign) and len(a.targets) == 1 and isinstance(a.targets[0], ast.Name) and isinstance(w, ast.While)
+                        and not w.orelse and isinstance(w.test, ast.Constant) and w.test.value is True and len(w.body) > 1
+                        and isinstance(a.value, ast.Constant) and isinstance(a.value.value, int) and not isinstance(a.value.value, bool)):
+                    continue
+                v = a.targets[0].id
+                first = w.body[0]
+                if not (isinstance(first, ast.AugAssign) and isinstance(first.op, ast.Add) and isinstance(first.target, ast.Name)
+                        and first.target.id == v and isinstance(first.value, ast.Constant) and first.value.value == 1):
+                    continue
+                inner = w.body[1:]
+                if any(isinstance(x, ast.Name) and x.id == v and isinstance(x.ctx, (ast.Store, ast.Del)) for st in inner for x in ast.walk(st)) or \
+                        any(isinstance(x, (ast.FunctionDef, ast.Lambda)) for st in inner for x in ast.walk(st)):
+                    continue
+                it = ast.Call(func=ast.Attribute(value=ast.Name(id='itertools', ctx=ast.Load()), attr='count', ctx=ast.Load()), args=[],
+                              keywords=[ast.keyword(arg='start', value=ast.Constant(value=a.value.value + 1))])
+                loop = ast.For(target=ast.Name(id=v, ctx=ast.Store()), iter=it, body=inner, orelse=[], type_comment=None)
+                ast.copy_location(loop, w)
+                lst[i:i + 2] = [loop]
+                changed = True
+                break
+            if changed:
+                break
+
+
 def _stmts_after(fn, owner):
     """statements of fn that can run after `owner` finished (conservative: everything that is not inside owner)."""
     inside = set(id(x) for x in ast.walk(owner))
@@ -265,6 +299,8 @@ class _SliceCall(ast.NodeTransformer):
 
 
 def canonical(tree):
+    imports_itertools = any(isinstance(st, ast.Import) and any(a.name == 'itertools' and a.asname is None for a in st.names)
+                            for st in getattr(tree, 'body', []))
     tree = Canon().visit(tree)
     tree = _SliceCall().visit(tree)
     for fn in ast.walk(tree):
@@ -272,4 +308,12 @@ def canonical(tree):
             _inline_return_temps(fn)
             _guard_continue(fn)
             _counting_loops(fn)
+            if imports_itertools:
+                _count_loops(fn)
+    for node in ast.walk(tree):
+        # bool(X) in a test position is X
+        if isinstance(node, (ast.If, ast.While, ast.IfExp)):
+            t = node.test
+            if isinstance(t, ast.Call) and isinstance(t.func, ast.Name) and t.func.id == 'bool' and len(t.args) == 1 and not t.keywords:
+                node.test = t.args[0]
     return ast.fix_missing_locations(tree)
